@@ -22,7 +22,7 @@ def deg : Float := 180 / 3.14159265358979323846
 
 def handle (op : String) (args res : List String) : Option Verdict :=
   match op with
-  | "taupf" => some <|
+  | "ctaupf" => some <|
     match args.mapM pfl, res.mapM pfl with
     | some [tau, es], some [v] =>
       let m : Float := taupf tau es
@@ -81,7 +81,7 @@ def handle (op : String) (args res : List String) : Option Verdict :=
           else if closeU m v 64 then .ok else .bad s!"PolarStereographic::SetScale: k0 impl={shw v} model={shw m}"
         | none => .bad "parse"
     | _, _ => .bad "parse"
-  | "dd" => some <|
+  | "cdd" => some <|
     match args[0]?, (args.drop 1).mapM pfl, res.mapM pfl with
     | some w, some (x :: y :: f :: ext), some [v] =>
       let e (i : Nat) : Float := ext.getD i 0
